@@ -309,3 +309,8 @@ func vExtractAll(vs ...interface{}) (map[string]reflect.Type, map[string]string)
 
 // vIsOpen: is this finding listed as open in known_findings.jsonl? (natively: false, nothing is carved out)
 func vIsOpen(id string) bool { return false }
+
+// vRecord: translator self-test. Natively prints the bytes; the engine collects them for comparison.
+func vRecord(name string, b []byte) {
+	fmt.Printf("REPLAY-RECORD %s %x\n", name, b)
+}
